@@ -11,6 +11,7 @@ structure DState where
   obs : ObsDrv := {}
   conc : CS := CS.init true 0 1 0 []
   own : Ledger := Ledger.init
+  rbox : RB := RB.new ⟨0, 0, false⟩
 
 def stepLine (st : DState) (line : String) : DState × String :=
   let toks := (line.trimAscii.toString.splitOn " ").filter (· ≠ "")
@@ -24,6 +25,9 @@ def stepLine (st : DState) (line : String) : DState × String :=
     | some f, some d, some l => (st, (d.map f).show ++ " " ++ showOptList ((d.map f).apply (l.map f)))
     | _, _, _ => (st, "bad-op")
   | _ =>
+    match rboxStep st.rbox toks with
+    | some (rbox, out) => ({ st with rbox }, out)
+    | none =>
     match ownStep st.own toks with
     | some (own, out) => ({ st with own }, out)
     | none =>
